@@ -100,7 +100,10 @@ theorem linTerms_sound (env : Env ℝ) (e : Expr) (s : Bool) (l : List (Bool × 
   induction e generalizing s l with
   | var i => simp [linTerms] at h; subst h; simp [termVal, eval]
   | param i => simp [linTerms] at h; subst h; simp [termVal, eval]
-  | const q => simp [linTerms] at h
+  | const q =>
+    simp only [linTerms] at h
+    split_ifs at h with hq
+    · simp at h; subst h; subst hq; simp [eval]
   | ifElse c t e _ _ _ => simp [linTerms] at h
   | ineq b lb ub _ => simp [linTerms] at h
   | un op a ih =>
